@@ -20,8 +20,21 @@ pub fn remaining() -> usize {
     QUEUE.with(|q| q.borrow().len())
 }
 
+thread_local! {
+    static PADDED: std::cell::Cell<usize> = std::cell::Cell::new(0);
+}
+
+/// Inputs the counterexample's trace does not contain are requested only AFTER the point where the
+/// refuted assertion sits (the trace stops there); they are padded with zeros and counted.
 fn pop() -> u128 {
-    QUEUE.with(|q| q.borrow_mut().pop_front()).unwrap_or_else(|| panic!("SHIM: ran out of model values"))
+    QUEUE.with(|q| q.borrow_mut().pop_front()).unwrap_or_else(|| {
+        PADDED.with(|p| p.set(p.get() + 1));
+        0
+    })
+}
+
+pub fn padded() -> usize {
+    PADDED.with(|p| p.get())
 }
 
 pub trait Arbitrary: Sized {
